@@ -14,7 +14,8 @@ RULE = ("inputs = (tree, search, attributes, sid_encode): trees = generated univ
         "2nd / 3rd entity (incl. sidecars shared by files that differ by extension, data on folders, no data at all); "
         "searches = star subsets + <=k edits of the C07 menu (incl. overlapping comma alternatives 'x,*') on bases from the "
         "tree; attributes in {None, ['a'], ['a','zz'], ['sid'], ['sid','a'], ['zz']}; sid_encode in {str, uri, returns None}. "
-        "distinct = distinct (tree, search); non-trivial = the Finder finds at least one Sid.")
+        "distinct = distinct (tree, search); non-trivial = the Finder finds at least one Sid."
+        " Added: GetFromAll() asked again after GetFromAll(<configuration name>) objects were used first, from cold singletons.")
 ASSUMPTIONS = ["an empty attributes list is outside the alphabet (falsy: treated like None by the implementation)",
                "get order is compared with find order of the same process on the unchanged tree"]
 
